@@ -442,10 +442,11 @@ theorem encodeImports_inv {g : GraphVal} {o : Opts} (wf : WF g) (importNodes : L
         exact hperm.nodup_iff.mpr hfix
       have hA := importAll_ok2 l hndl
         (fun e he' hk => by
-          rcases hok.ifaceNamed e ((hmemiff e).mp he') hk with h | h | ⟨i, h1, h2, h3⟩
+          rcases hok.ifaceNamed e ((hmemiff e).mp he') hk with h | h | ⟨i, h1, h2 | ⟨h2, h3⟩⟩
           · exact Or.inl h
           · exact Or.inr (Or.inl h)
-          · exact Or.inr (Or.inr ⟨i, h1, hpriv i h2, fun e' he2 => h3 e' ((hmemiff e').mp he2)⟩))
+          · exact Or.inr (Or.inr ⟨i, h1, Or.inl h2⟩)
+          · exact Or.inr (Or.inr ⟨i, h1, Or.inr ⟨hpriv i h2, fun e' he2 => h3 e' ((hmemiff e').mp he2)⟩⟩))
         l (st := {}) (enc := []) [] (by simp) sync_init
         (fun _ _ h => by simp [amGet] at h) (fun _ h => by simp [amGet] at h)
         (fun _ _ _ h => by simp [amGet] at h)
